@@ -4,11 +4,13 @@ package route
 
 import (
 	"fmt"
+	"math/rand/v2"
 	"net/http"
 	"net/url"
 	"sort"
 	"strings"
 
+	"foxverif/gen"
 	"foxverif/ref"
 
 	"github.com/tigerwill90/fox"
@@ -46,6 +48,10 @@ type Case struct {
 	Global []string    `json:"global,omitempty"` // "ignore", "redirect", "405", "options"
 	Routes []RouteSpec `json:"routes"`
 	Reqs   []Req       `json:"reqs"`
+	// Churn, when non-zero, seeds a round of related temporary routes that are registered after Routes and deleted
+	// again before the probes run (see Churn); ChurnMethods are extra methods the temporary routes may use.
+	Churn        uint64   `json:"churn,omitempty"`
+	ChurnMethods []string `json:"churn_methods,omitempty"`
 }
 
 func (c Case) has(opt string) bool {
@@ -72,6 +78,9 @@ func (c Case) RoutesString() string {
 	if len(c.Global) > 0 {
 		sb.WriteString(" global=" + strings.Join(c.Global, ","))
 	}
+	if c.Churn != 0 {
+		sb.WriteString(fmt.Sprintf(" churn=%x", c.Churn))
+	}
 	return sb.String()
 }
 
@@ -97,6 +106,8 @@ type Built struct {
 	Spec     map[string]RouteSpec // method+" "+pattern
 	Methods  []string
 	Rejected []RouteSpec
+	Churned  int    // temporary routes added and deleted again
+	ChurnErr string // a temporary route could not be deleted
 }
 
 func snapshot(c fox.Context, kind string) Seen {
@@ -161,6 +172,16 @@ func Build(c Case) (*Built, error) {
 		if err := b.Add(rs); err != nil {
 			b.Rejected = append(b.Rejected, rs)
 		}
+	}
+	if c.Churn != 0 {
+		pf := gen.DefaultProfile
+		for _, rs := range c.Routes {
+			if !strings.HasPrefix(rs.Pattern, "/") {
+				pf = gen.HostProfile
+			}
+		}
+		pf.MaxSeg = 4
+		b.Churned, b.ChurnErr = Churn(b, rand.New(rand.NewPCG(c.Churn, 77)), pf, c.ChurnMethods...)
 	}
 	return b, nil
 }
